@@ -180,8 +180,23 @@ theorem CEok.restore {sb : Sub} {e : CE} (h : CEok sb e) (g : Nat) (hc : ¬ sb.c
 theorem Ghost.restore_sub {sb : Sub} (h : ∀ e ∈ sb.ces, CEok sb e) (g : Nat) :
     ∀ e ∈ (sb.restore g).ces, CEok (sb.restore g) e := by
   by_cases hc : sb.cur ≤ g
-  · have : sb.restore g = sb := by rw [Sub.restore, if_pos hc]
-    rw [this]; exact h
+  · -- early return of restoreToStage: stage and versions untouched; the ghost of entries depending on a stage above
+    -- g is cleared, and those entries are below their depends-on stage, hence stale by their stamp already
+    rw [Sub.restore, if_pos hc]
+    intro e' he'
+    obtain ⟨e, he, rfl⟩ := List.mem_map.mp he'
+    have hk := h e he
+    unfold CE.unfresh
+    by_cases hb : g < e.dep
+    · rw [if_pos hb]
+      have hst := hk.below (by omega)
+      refine ⟨hk.vpos, hk.le, ?_, hk.off, hk.below⟩
+      constructor
+      · intro ⟨h3, _⟩
+        have h3' : e.stamp = sb.ver e.dep := h3
+        omega
+      · intro h3; cases h3
+    · rw [if_neg hb]; exact hk.congr rfl (Nat.le_refl _) rfl rfl rfl rfl rfl
   · by_cases hg : g = 0
     · have : sb.restore g = {} := by rw [Sub.restore, if_neg hc, if_pos hg]
       rw [this]; intro e he; simp at he
